@@ -19,7 +19,7 @@ Variants == [
   shutdown |-> 4, shutdownAck |-> 0, shutdownComplete |-> 0,
   cookieEcho5 |-> 5, cookieEcho8 |-> 8, cookieAck |-> 0,
   reconfReq1 |-> 18, reconfReq0 |-> 16, reconfResp |-> 12, reconfBoth |-> 28,
-  fwd0 |-> 4, fwd2 |-> 12, ifwd0 |-> 4, ifwd2 |-> 20 ]
+  fwd0 |-> 4, fwd2 |-> 12, ifwd0 |-> 4, ifwd2 |-> 20, ifwdDup |-> 28 ]
 Names == DOMAIN Variants
 \* INIT / INIT-ACK travel alone (C12: INIT alone in its packet)
 Single == [ init |-> 24, initZca |-> 32, initAck |-> 32, initAckZca |-> 40 ]
